@@ -239,6 +239,7 @@ class MidiFileIter(Contract):
         ek = tempo_fns()
         h = ip.ctx.h
         y = ip.ctx.fresh('iterated', ek.seqsort)
+        ip.ctx.assume(All(0, z3.Length(y), lambda k: z3.And(ek.kind(y[k]) >= 0, ek.kind(y[k]) <= 2)))
         ip.ctx.__dict__.setdefault('iter_calls', []).append((args[0], y))
         h.Y = y
         return SSeq(y, tuple, ek)
@@ -412,3 +413,23 @@ class MidiFilePlay(Contract):
         out['plays-the-iteration-of-the-file'] = len(calls) == 1 and calls[0][0] is h.mf
         out.update(reads_only_contents(h))
         return out
+
+
+# ====================================================================== unit conversions (C13)
+if z3 is not None:
+    from pyvc.contract import lemma, Lemma
+
+    @lemma
+    class TickSecondInverseOverReals(Lemma):
+        """second2tick(tick2second(t, tpb, tempo), tpb, tempo) == t for integer t and positive tempo/tpb, over the REALS
+        (floats as reals: (t*s)/s == t and round(t) == t for an integer t); IEEE rounding is covered by a bounded grid only"""
+        name = 'C13.tick-second-inverse-over-reals'
+        properties = ('C13',)
+
+        def vcs(self, ctx):
+            t = z3.Int('t')
+            tempo, tpb = z3.Ints('tempo tpb')
+            scale = z3.ToReal(tempo) * real_val(1e-6) / z3.ToReal(tpb)
+            sec = z3.ToReal(t) * scale
+            back = sec / scale
+            yield ('exact-over-reals', [tempo > 0, tpb > 0], back == z3.ToReal(t))
